@@ -9,6 +9,18 @@ generated `Gen.kindTable`). The real `spec.get_model_matrix(follow_up)` is then 
 flag, and the column names each term generated BEFORE `_enforce_structure` (recorded by wrapping that
 method at run time; no hook in the source).
 
+Histories: between the fit and the reuse the recorded spec may be DERIVED — one part of a multi-part
+spec used on its own (`mm[1].model_spec`), `ModelSpec.subset(terms)`, a pickle round trip, and
+combinations. The derivation is performed on the live object; the model performs it itself on what
+the fit recorded (`Model.Reuse.derive`), reports any field in which the live derived spec differs
+from its own (terms, structure, encoder_state, transform_state, settings) and replays ITS derived
+spec (`replayDerived`).
+
+"Recorded" for the oracle means recorded by the FIT: the kind and levels of a factor are read from
+the reused spec and, where the derivation did not hand them on, from the specs the fit produced (all
+parts; a factor shared by several parts is evaluated and encoded once per fit). Only for a spec that
+was hand-edited after the fit (the `tamper` stream) is the edited spec itself the record.
+
 Oracle (implementation only): the three clauses of the property on the outcome —
 (1) a factor whose kind on the follow-up data differs from the recorded kind => an exception, and
     `FactorEncodingError` when nothing else is wrong with the case (all columns present, no
@@ -42,12 +54,21 @@ REQUIRED_THEOREMS = [
     "generated_names_data_independent",
     "consistent_spec_never_reshaped",
     "unseen_levels_no_reshape",
+    "derived_spec_keeps_record",
+    "derived_kind_change_never_matrix",
+    "derived_kind_change_is_error",
+    "derived_names_recorded",
 ]
 TRUSTED = [
     "parameters of the model (results of the real code forwarded per case): the kind `_is_categorical` assigns to a dtype "
     "(generated table Gen/KindTable.lean, cross-checked per case against the live method), the iteration order of the pooled "
     "`set` of factors (recorded by wrapping `_prepare_factor_evaluation_model_spec`), the recorded spec itself (read from the "
     "live ModelSpec after a real fit)",
+    "derivation histories: `ModelSpec.subset` is modelled as written (degree-stable re-ordering of the nominated terms, structure "
+    "rows by term, every other field carried over by `update`) with the nominated terms given by position; taking one part of a "
+    "`ModelSpecs` and a pickle round trip are modelled as the identity on the dataclass fields; the live derived spec is compared "
+    "field by field with the model's derivation on every such case. Term matching by text in `subset` (`Formula.from_spec` of the "
+    "term strings) and the pickle machinery are exercised, not modelled",
     "modelled, not verified: pandas.unique / pandas.Categorical(categories=levels) / get_dummies (a cell equal to a pinned level "
     "sets that level's dummy, anything else — unseen value or null — gives an all-zero row), `astype('category')` sorting, "
     "numpy element-wise products as exact rational arithmetic with NaN propagation",
@@ -69,7 +90,13 @@ RULE = (
     "optionally built from Factor objects with a declared kind; x ensure_full_rank x output pandas/numpy/sparse x na_action; "
     "follow-up frame: per column one of same / lose levels / gain levels / both / categorical->float|int|bool / "
     "numeric->object|category / object->str dtype / object<->category / int<->float / nulls added / column missing; "
-    "12% of the cases hand-edit the recorded spec after the fit (add/drop/rename a recorded column name, drop/add/unpin recorded "
+    "every categorical follow-up column may ALSO hold nulls whatever happened to its levels (so nulls meet lost / unseen levels "
+    "under every na_action; more often under 'ignore'); "
+    "histories between fit and reuse (42% of the cases): one part of a 2-3 part formula `p1 | p2 [| p3]` (optionally two-sided) "
+    "used on its own — the parts share factors —, ModelSpec.subset of 1-3 nominated terms in arbitrary order (so a factor may "
+    "survive only inside an interaction), part then subset, a pickle round trip, and pickle after any of these; multi-part specs "
+    "are also reused whole; "
+    "12% of the cases (never a `|` spec reused whole) hand-edit the (derived) spec after the fit (add/drop/rename a recorded column name, drop/add/unpin recorded "
     "levels, remove or flip a recorded kind) to reach the padding, zero-fill and error branches of _enforce_structure; "
     "non-trivial = formula with an interaction and a follow-up column that changes kind or levels; distinct by canonical JSON"
 )
@@ -201,8 +228,9 @@ def col_levels(c):
     return out
 
 
-def mutate_col(rng, c, nrows, mode):
-    """the follow-up version of training column `c`"""
+def mutate_col(rng, c, nrows, mode, null_p=0.0):
+    """the follow-up version of training column `c`; `null_p`: chance that a categorical column
+    ALSO holds a null, whatever happened to its levels (same / lost / gained / both / only new)"""
     name = c["name"]
     lv = col_levels(c)
     ints = bool(lv) and all(isinstance(v, int) for v in lv)
@@ -223,8 +251,14 @@ def mutate_col(rng, c, nrows, mode):
         else:
             pool = lv
         vals = [rng.choice(pool) for _ in range(nrows)]
+        put = rng.randrange(nrows) if nrows else 0
         if mode in ("gain", "both") and nrows:
-            vals[rng.randrange(nrows)] = pool[-1]
+            vals[put] = pool[-1]
+        if nrows > 1 and c["dtype"] != "int64" and rng.random() < null_p:
+            for _ in range(rng.choice([1, 1, 2])):
+                at = rng.randrange(nrows)
+                if at != put:
+                    vals[at] = None
         if mode == "tofloat":
             return dict(name=name, dtype="float64", values=[fstr(Fraction(rng.randint(-4, 9), rng.choice([1, 2]))) for _ in range(nrows)])
         if mode == "toint":
@@ -232,14 +266,14 @@ def mutate_col(rng, c, nrows, mode):
         if mode == "tobool":
             return dict(name=name, dtype="bool", values=[rng.random() < 0.5 for _ in range(nrows)])
         if mode == "tostr" and not ints:
-            return dict(name=name, dtype="str", values=vals)
+            return dict(name=name, dtype="str", values=[pool[0] if v is None else v for v in vals])
         if c["dtype"] == "int64":
             # integer column used through C(): may arrive as float or as text
             r = rng.random()
             if mode == "flip" and r < 0.5:
                 return dict(name=name, dtype="float64", values=[fstr(v) for v in vals])
             if mode == "flip":
-                return dict(name=name, dtype="object", values=[str(v) for v in vals])
+                return dict(name=name, dtype="object", values=[None if v is None else str(v) for v in vals])
             return dict(name=name, dtype="int64", values=vals)
         dt = c["dtype"]
         if mode == "flip":
@@ -247,7 +281,7 @@ def mutate_col(rng, c, nrows, mode):
         if dt.startswith("category"):
             cats = []
             for v in vals:
-                if v not in cats:
+                if v is not None and v not in cats:
                     cats.append(v)
             extra = [x for x in lv if x not in cats]
             if rng.random() < 0.5:
@@ -280,7 +314,10 @@ NUM_MODES = ["same", "tocat", "tocatdtype", "flip", "nulls"]
 NUM_WEIGHTS = [6, 2, 1, 2, 2]
 
 
-def gen_follow(rng, train, malformed, tampered=False):
+NULL_P = {"drop": 0.12, "raise": 0.04, "ignore": 0.4}
+
+
+def gen_follow(rng, train, malformed, tampered=False, na_action="drop"):
     nrows = rng.choice([0, 1, 2, 3, 4, 5, 6]) if rng.random() < 0.9 else train["nrows"]
     cols, modes = [], {}
     for c in train["cols"]:
@@ -296,7 +333,7 @@ def gen_follow(rng, train, malformed, tampered=False):
             if mode == "flip" and c["dtype"] == "int64":
                 mode = "same"
         modes[c["name"]] = mode
-        cols.append(mutate_col(rng, c, nrows, mode))
+        cols.append(mutate_col(rng, c, nrows, mode, NULL_P[na_action]))
     if malformed and cols:
         drop = rng.randrange(len(cols))
         modes[cols[drop]["name"]] = "missing"
@@ -304,7 +341,7 @@ def gen_follow(rng, train, malformed, tampered=False):
     return dict(nrows=nrows, cols=cols), modes
 
 
-def gen_formula(rng, train):
+def gen_formula(rng, train, nparts=1):
     cats = [c["name"] for c in train["cols"] if c["name"] in ("A", "B", "G")]
     nums = [c["name"] for c in train["cols"] if c["name"] in ("x", "z")]
     direct_cat = [c["name"] for c in train["cols"] if c["name"] in cats and c["dtype"] != "int64"]
@@ -320,18 +357,26 @@ def gen_formula(rng, train):
             return f"C({rng.choice(nums)})" if False else rng.choice(nums)
         return rng.choice(nums) if nums else rng.choice(cats)
 
-    terms = []
-    for _ in range(rng.randint(1, 4)):
-        k = rng.choice([1, 1, 1, 2, 2, 3])
-        fs = []
-        for _ in range(k):
-            a = atom()
-            if a not in fs:
-                fs.append(a)
-        op = ":" if rng.random() < 0.75 else "*"
-        terms.append(op.join(fs))
-    icpt = rng.choice(["", "", "", "0 + ", "-1 + "])
-    rhs = icpt + " + ".join(terms)
+    def make_rhs():
+        terms = []
+        for _ in range(rng.randint(1, 4)):
+            k = rng.choice([1, 1, 1, 2, 2, 3])
+            fs = []
+            for _ in range(k):
+                a = atom()
+                if a not in fs:
+                    fs.append(a)
+            op = ":" if rng.random() < 0.75 else "*"
+            terms.append(op.join(fs))
+        icpt = rng.choice(["", "", "", "0 + ", "-1 + "])
+        return icpt + " + ".join(terms)
+
+    rhs = make_rhs()
+    if nparts > 1:
+        # multi-part formula `p1 | p2 [| p3]`: the parts draw on the same few columns, so they share
+        # factors (whose encoding is computed once and cached for the later parts)
+        rhs = " | ".join([rhs] + [make_rhs() for _ in range(nparts - 1)])
+        return {"text": ("y ~ " if rng.random() < 0.2 else "") + rhs}
     if rng.random() < 0.2:
         return {"text": "y ~ " + rhs}
     if rng.random() < 0.12:
@@ -360,24 +405,56 @@ def gen_formula(rng, train):
     return {"text": rhs}
 
 
+def gen_history(rng):
+    """what happens to the recorded spec between the fit and its reuse (resolved against the live
+    spec at run time: `i` modulo the number of parts, `picks` modulo the number of terms)"""
+    r = rng.random()
+    part = dict(op="part", i=rng.randrange(6))
+    subset = dict(op="subset", picks=[rng.randrange(12) for _ in range(rng.choice([1, 1, 2, 2, 3]))])
+    if r < 0.58:
+        steps = []
+    elif r < 0.71:
+        steps = [part]
+    elif r < 0.87:
+        steps = [subset]
+    elif r < 0.93:
+        steps = [part, subset]
+    else:
+        steps = [dict(op="pickle")]
+    if steps and steps[-1]["op"] != "pickle" and rng.random() < 0.15:
+        steps.append(dict(op="pickle"))
+    return steps
+
+
 def cases(rng, tier):
-    n = {"quick": 450, "thorough": 6000, "search": 250}[tier]
+    n = {"quick": 700, "thorough": 8000, "search": 300}[tier]
     for i in range(n):
         na_action = rng.choices(["drop", "raise", "ignore"], [7, 1, 2])[0]
         train = gen_train(rng, nulls=na_action != "raise")
-        formula = gen_formula(rng, train)
+        derive = gen_history(rng)
+        has_part = any(st["op"] == "part" for st in derive)
+        nparts = rng.choice([2, 2, 3]) if has_part and rng.random() < 0.9 else (2 if rng.random() < 0.06 else 1)
+        formula = gen_formula(rng, train, nparts)
+        if "text" in formula and ("~" in formula["text"] or "|" in formula["text"]) and not has_part:
+            if any(st["op"] == "subset" for st in derive):  # `subset` is a method of a single spec
+                derive.insert(0, dict(op="part", i=rng.randrange(6)))
         malformed = rng.random() < 0.04
         tamper = []
         if rng.random() < 0.12:
             for _ in range(rng.choice([1, 1, 2])):
                 tamper.append(dict(op=rng.choice(TAMPER_OPS), i=rng.randrange(6)))
-        follow, modes = gen_follow(rng, train, malformed, tampered=bool(tamper))
+        if tamper and "|" in formula.get("text", "") and not any(st["op"] == "part" for st in derive):
+            # parts that share a factor also share its encoding within one call (`encoded_cache`, outside the
+            # model): hand edits that make two parts record different state for one factor are not generated
+            tamper = []
+        follow, modes = gen_follow(rng, train, malformed, tampered=bool(tamper), na_action=na_action)
         yield dict(
             formula=formula,
             train=train,
             follow=follow,
             modes=modes,
             tamper=tamper,
+            derive=derive,
             output=rng.choice(["pandas", "pandas", "numpy", "sparse"]),
             na_action=na_action,
             efr=rng.random() < 0.75,
@@ -399,7 +476,7 @@ def apply_tamper(ms, ops):
                 continue
             cols = ms.structure[i % len(ms.structure)].columns
             if name == "cols_add":
-                cols.append("EXTRA")
+                cols.append("EXTRA" if "EXTRA" not in cols else f"EXTRA{len(cols)}")  # names stay distinct
             elif name == "cols_drop" and cols:
                 cols.pop()
             elif name == "cols_rename" and cols:
@@ -444,7 +521,8 @@ def describe(c):
     used = used_columns(c)
     ms = sorted({c["modes"].get(u, "?") for u in used})
     tam = "|tamper:" + "+".join(sorted({t["op"] for t in c["tamper"]})) if c.get("tamper") else ""
-    return ",".join(ms) + ("|ix" if (":" in formula_text(c) or "*" in formula_text(c)) else "") + tam
+    der = "|derive:" + ">".join(st["op"] for st in c["derive"]) if c.get("derive") else ""
+    return ",".join(ms) + ("|ix" if (":" in formula_text(c) or "*" in formula_text(c)) else "") + der + tam
 
 
 def nontrivial(c):
@@ -523,6 +601,39 @@ def matrix_json(m, output):
     return dict(names=names, values=values, ncols=ncols, spec_names=[str(x) for x in m.model_spec.column_names])
 
 
+def apply_derive(specs, steps, as_text):
+    """the history between fit and reuse, on the LIVE spec object(s); returns the derived object
+    and the steps with their indices resolved (what the model is told)"""
+    import pickle
+
+    cur, resolved = specs, []
+    for st in steps:
+        parts = flatten(cur)
+        if st["op"] == "part":  # one part of a multi-part spec, used on its own
+            i = st["i"] % len(parts)
+            cur = parts[i]
+            resolved.append(dict(op="part", i=i))
+        elif st["op"] == "subset":  # ModelSpec.subset(terms)
+            if len(parts) != 1:
+                raise RuntimeError("generator discipline: subset needs a single spec")
+            ms = parts[0]
+            terms = list(ms.formula)
+            if [str(r.term) for r in ms.structure] != [str(t) for t in terms]:
+                raise RuntimeError("structure rows are not in formula order")
+            picks = []
+            for p in st["picks"]:
+                if terms and p % len(terms) not in picks:
+                    picks.append(p % len(terms))
+            # the usual call nominates the terms by their text; hand-built factors (declared kinds)
+            # are nominated as Term objects
+            cur = ms.subset([str(terms[i]) for i in picks] if as_text else [terms[i] for i in picks])
+            resolved.append(dict(op="subset", picks=picks))
+        else:  # stored and loaded again
+            cur = pickle.loads(pickle.dumps(cur))
+            resolved.append(dict(op="pickle"))
+    return cur, resolved
+
+
 def impl(c):
     from formulaic import model_matrix
     from formulaic.errors import FormulaicWarning
@@ -538,9 +649,20 @@ def impl(c):
         except Exception as e:
             return dict(train_error=type(e).__name__)
     specs = mm.model_spec
+    # what the fit recorded (every part), before anything is derived from it
+    out["fit_specs"] = [spec_json(ms) for ms in flatten(specs)]
+    if c.get("derive"):
+        try:
+            specs, out["derive_resolved"] = apply_derive(specs, c["derive"], "text" in c["formula"])
+        except RuntimeError:
+            raise
+        except Exception as e:
+            out["derive_error"] = type(e).__name__
+            return out
+        out["derived"] = [spec_json(ms) for ms in flatten(specs)]
     for ms in flatten(specs):
         apply_tamper(ms, c.get("tamper", []))
-    out["specs"] = [spec_json(ms) for ms in flatten(specs)]
+    out["specs"] = [spec_json(ms) for ms in flatten(specs)]  # the spec(s) actually reused
     probe = PandasMaterializer(follow)
     out["kinds"] = {k: ("categorical" if probe._is_categorical(follow[k]) else "numerical") for k in follow.columns}
 
@@ -602,7 +724,13 @@ def frame_json(fr):
 def request(c, o):
     if "specs" not in o:
         return dict(specs=[], frame=dict(nrows=0, cols=[]), order=[])
-    return dict(specs=o["specs"], frame=frame_json(c["follow"]), order=o["order"])
+    r = dict(specs=o["specs"], frame=frame_json(c["follow"]), order=o["order"])
+    if c.get("derive"):
+        # the model derives the spec itself from what the fit recorded and replays ITS derivation
+        # (a spec hand-edited after the derivation is replayed as read back)
+        r.update(derive=o["derive_resolved"], fit_specs=o["fit_specs"], derived=o["derived"],
+                 replay_on="live" if c.get("tamper") else "model")
+    return r
 
 
 def agree(c, o, m):
@@ -610,6 +738,11 @@ def agree(c, o, m):
         return "driver: " + m["driver_error"][:300]
     if "train_error" in o:
         return "the training fit itself failed: " + o["train_error"]
+    if "derive_error" in o or "derive_error" in m:
+        return f"deriving the spec {c.get('derive')}: impl {o.get('derive_error', 'ok')} vs model {m.get('derive_error', 'ok')}"
+    if m.get("derived_diff"):
+        return (f"the spec derived by {o.get('derive_resolved')} does not carry what the fit recorded: it differs from the "
+                f"model's derivation in {m['derived_diff']}")
     if "pooled" not in m:
         return "model: " + str(m)[:200]
     if sorted(m["pooled"]) != sorted(o["order"]):
@@ -647,13 +780,30 @@ def _follow_cols(c):
     return {col["name"]: col for col in c["follow"]["cols"]}
 
 
+def _recorded(c, o):
+    """expr -> {"kind", "levels"}: what was RECORDED for each factor. For a spec as the fit (and any
+    derivation: a part used alone, subset, pickle) left it, that is what the fit recorded for the
+    factor — read from the reused spec itself and, where a derivation did not hand it on, from the
+    specs of the fit (every part: a factor shared by several parts is evaluated and encoded once per
+    fit). For a spec that was hand-edited afterwards it is what the edited spec says."""
+    sources = list(o["specs"])
+    if not c.get("tamper"):
+        sources += o.get("fit_specs", [])
+    rec = {}
+    for s in sources:
+        for e in s["encoder_state"]:
+            rec.setdefault(e["expr"], e)
+    return rec
+
+
 def _kind_changes(c, o):
     """[(expr, recorded, new)] for pooled factors with recorded encoder state whose column is present"""
     cols = _follow_cols(c)
-    rec = {}
-    for s in o["specs"]:
-        for e in s["encoder_state"]:
-            rec[e["expr"]] = e
+    rec = _recorded(c, o)
+    if c.get("tamper"):  # hand-edited parts may disagree: the pooled evaluation spec is a dict.update (last wins)
+        for s in o["specs"]:
+            for e in s["encoder_state"]:
+                rec[e["expr"]] = e
     seen, changes, declared_conflict = set(), [], False
     for s in o["specs"]:
         for t in s["terms"]:
@@ -677,7 +827,7 @@ def _kind_changes(c, o):
 def oracle(c, o):
     if "harness_exception" in o:
         return "harness could not run the implementation: " + o["harness_exception"]
-    if "train_error" in o:
+    if "train_error" in o or "derive_error" in o:
         return None
     cols = _follow_cols(c)
     oc = o["outcome"]
@@ -723,10 +873,7 @@ def oracle(c, o):
             return f"column names {r['names']} differ from the recorded {want}"
         if r["ncols"] != len(want):
             return f"{r['ncols']} columns for {len(want)} recorded names"
-    rec = {}
-    for s in o["specs"]:
-        for e in s["encoder_state"]:
-            rec.setdefault(e["expr"], e)
+    rec = _recorded(c, o)
     encoded = {sf["expr"] for s in o["specs"] for t in s["structure"] for st in t["scoped"] for sf in st["factors"]}
     for expr, f in factors.items():
         e = rec.get(expr)
@@ -744,8 +891,17 @@ def oracle(c, o):
                 continue
             txt = l["s"] if "s" in l else l["n"] if "n" in l else str(l["b"])
             comps = {f"{expr}[{txt}]", f"{expr}[T.{txt}]"}
-            for r in oc["results"]:
+            for si, r in enumerate(oc["results"]):
+                padded = set()
+                if c.get("tamper") and si < len(o["generated"]):
+                    # a hand-edited spec may send a term through the padding branches of _enforce_structure
+                    # (its generated names are not the recorded ones): such columns are copies, not dummies
+                    for ts, gen in zip(o["specs"][si]["structure"], o["generated"][si]):
+                        if sorted(gen) != sorted(ts["columns"]):
+                            padded |= set(ts["columns"])
                 for name, vals in zip(r["names"], r["values"]):
+                    if name in padded:
+                        continue
                     if comps & set(name.split(":")):
                         bad = [v for v in vals if v is not None and v != "0"]
                         if bad:
@@ -765,12 +921,15 @@ LEVEL_TEXT = (
     "stands alone or inside any interaction; a successful replay has exactly the recorded column names; with pinned levels the "
     "generated names do not depend on the data, an absent level's columns are all zero, and the warning flag is raised exactly "
     "when a surviving cell is not a recorded level; the 1->many padding branch of _enforce_structure is unreachable under a kind "
-    "change. The model is tied to the code by a differential correspondence on every run (training fit by the real code, recorded "
-    "spec read back, follow-up replay compared cell by cell incl. warnings and pre-enforcement names)."
+    "change; a spec derived from a recorded one by any history of part / subset / round-trip steps carries that spec's "
+    "encoder_state verbatim, its rows are rows of that spec, and the kind-change and name theorems hold for its reuse "
+    "(replayDerived) with respect to the kinds and levels recorded at fit time. The model is tied to the code by a differential correspondence on every run (training fit by the real code, recorded "
+    "spec read back, derivations performed by both sides and compared field by field, follow-up replay compared cell by cell "
+    "incl. warnings and pre-enforcement names)."
 )
 LEVEL_NOTE = (
     "Trusted: Lean kernel + propext/Classical.choice/Quot.sound; the hand model of base.py/contrasts.py reuse path validated by "
     "correspondence; the dtype->kind table is regenerated from the live _is_categorical; pandas' categorical machinery, set "
-    "iteration order and numpy products enter as parameters; multi-part encoded_cache sharing, non-treatment contrasts and other "
-    "stateful transforms are outside the model."
+    "iteration order and numpy products enter as parameters; multi-part encoded_cache sharing at FIT time (the oracle, not the model, holds a later part "
+    "to what the fit recorded for a shared factor), non-treatment contrasts and other stateful transforms are outside the model."
 )
